@@ -1,3 +1,6 @@
 import GwcsModel.Basic
 import GwcsModel.Polygon
+import GwcsModel.TExpr
+import GwcsModel.Pipeline
 import GwcsModel.Drv.C14
+import GwcsModel.Drv.Pipe
